@@ -191,6 +191,11 @@ pub fn as_pos_range(range: &TextRange, text: &str) -> PosRange {
     }
 }
 
+/// Length of a text range in UTF-16 code units.
+pub fn utf16_len(range: &TextRange, text: &str) -> usize {
+    text[range.clone()].encode_utf16().count()
+}
+
 fn as_index_range(pos_range: &PosRange, text: &str) -> TextRange {
     let PosRange { start, end } = pos_range;
     let start = get_insertion_index(start, text);
